@@ -38,8 +38,9 @@ func c10(c *Ctx) {
 	r.Rule("C10.invalid-clean", "guards dominate effects: WriteControl reaches the mutex/transport only with isControl(type) and len(data) <= 125; beginMessage succeeds only for control/data types; flushFrame calls write for a control frame only when final and length <= 125, the compared length being the one encoded in the header; rejected requests never call writeFatal")
 	r.Rule("C10.deadline", "the time given to SetWriteDeadline before each transport write is the section's deadline parameter; callers of write pass the current Conn.writeDeadline, which only SetWriteDeadline(t) assigns (from its parameter)")
 	r.Assume("net.Conn implementations report partial writes through a non-nil error (io.Writer contract)")
+	writeErrorsSticky(c, "C10.fail-stop")
 	r.Rule("C10.prepared-validated", "a PreparedMessage is rendered by WriteMessage on a private connection, so an invalid request (bad type, oversized control payload) is refused when the message is created or first sent, exactly as for WriteMessage (same rule as C19.key-complete)")
-	c.borrow(c19, map[string]string{"C19.key-complete": "C10.prepared-validated"})
+	c.borrow(c19, map[string]string{"C19.key-complete": "C10.prepared-validated", "C19.payload-copy": "C10.prepared-validated"})
 	r.Rule("C10.detector-released", "the concurrent-write detector (Conn.isWriting) is released on every return of the function that set it, also when the write failed: later writes then return the recorded error instead of panicking with 'concurrent write'")
 	isWritingBracket(c, "C10.detector-released")
 	t := newTransport(c)
@@ -496,4 +497,39 @@ func isWritingBracket(c *Ctx, rule string) {
 	if n < 2 {
 		c.R.Fail(rule, "", "floor", c.fn("(*messageWriter).flushFrame").Pos(), "fewer than the 2 known functions that set Conn.isWriting were analysed")
 	}
+}
+
+// writeErrorsSticky: whatever Conn.write returns as an error is recorded: the
+// value is the sticky write error it loaded, or the result of writeFatal.  A
+// frame that was refused without that (a deadline already in the past, say)
+// leaves the message torn while later writes go on.
+func writeErrorsSticky(c *Ctx, rule string) {
+	t := newTransport(c)
+	fn := c.fn("(*Conn).write")
+	wf := c.fn("(*Conn).writeFatal")
+	ok, why := true, "every non-nil result is the loaded sticky error or writeFatal(...)"
+	n := 0
+	c.explore(rule, fn, core.Opts{Unroll: 0, RecordLoads: true}, func(p *core.Path) {
+		if p.End != core.EndReturn || len(p.Results) != 1 {
+			return
+		}
+		e := p.Results[0]
+		if e.IsNil() {
+			return
+		}
+		n++
+		s := strip(e)
+		if _, is := fieldLoad(s, t.writeErr); is {
+			return
+		}
+		if s.Kind == core.KCall && s.Ref == interface{}(wf) {
+			return
+		}
+		// the error of the transport write itself (returned after the close latch was considered): known nil or recorded
+		if hasLit(p, len(p.Lits), true, func(x *core.Term) bool { return isEqNil(x, func(y *core.Term) bool { return y == e }) }) {
+			return
+		}
+		ok, why = false, "Conn.write returns "+e.String()+" at "+c.P.Pos(p.Ret.Pos())+" without recording it as the connection's write error: the frame is dropped, the message stays torn and later writes succeed"
+	})
+	c.R.Check(rule, shortFn(fn), "errors-are-recorded", fn.Pos(), ok && n > 0, why)
 }
